@@ -129,6 +129,19 @@ PROPS = {
         "assumptions": ["cross-codec fixpoint is only demanded when every string of the accepted message is valid UTF-8 (JSON cannot carry anything else)",
                         "a per-input watchdog of 20 s stands for 'hangs'; runtime fatals (stack exhaustion, OOM) kill the shard process and are reported by the driver as process-crash"],
     },
+    "C16": {
+        "level": "exploration",
+        "groups": [g("main", "c16", q=8, t=32, run="^Test(Prop)$", gomaxprocs=[4, 1, 2, 16])],
+        "timeout": {"quick": 300, "thorough": 1800},
+        "rule": ("generated: 1-16 concurrent callers (SendCall, SendReplyCall, SendCallAndWaitReplayCall) with unique payload markers over iscp.Connect "
+                 "and the in-memory broker (both codecs); the broker collects all calls, then emits acks (positive, or negative for chosen callers) "
+                 "and replies in a generated permutation (reply before ack included) with delays, plus acks/replies for unknown call ids, duplicated "
+                 "acks and unsolicited incoming calls; two receiver goroutines drain ReceiveCall / ReceiveReplyCall. Oracle: call ids distinct; "
+                 "returned id == id the broker saw for that marker; success iff the ack for that id was positive; the awaited reply's RequestCallID "
+                 "and payload belong to the caller's own call; inboxes equal the emitted lists in order, once each, field-equal. Non-trivial = >= 3 "
+                 "callers outstanding with permuted acks/replies; distinct by case hash."),
+        "assumptions": ["inbox load stays far below the 1024-item buffers", "the reconnect-between-call-and-ack part of the quantifier is exercised by C05"],
+    },
     "C17": {
         "level": "exploration",
         "groups": [g("main", "c17", q=4, t=16, run="^Test(Regress|Grid|RoundTrip|KeyValues|Binary|Derive|DialConfig)$")],
